@@ -94,9 +94,62 @@ ReportUfunc(n, c, o) ==
   /\ (~TUfunc(c.m, o, r) => TFail(n, c.op, c.m, o, r))
   /\ (~UOracleOK(o, c.op, c.els, c.k, c) => PrintT(ToJson([tag |-> "ORACLE", i |-> n])))
 
+
+\* ---- comb family: exact expectation for element j (small classes), else the harness' flags
+CombSmall(c) == IsSmall(c.vc1) /\ (c.va[1] = "tr" \/ IsSmall(c.va[1]))
+CombAj(c, j) == CombA(c.form, c.d0, c.d1, c.vc1, c.uf, c.us, c.ua, c.va, j)
+CombBj(c, j, to) == CombBIn(c.form, c.d1, c.vc1, c.uf, c.us, j, to)
+\* the numbers that appear on the way to element j (all must be normal numbers of the types involved)
+CombSteps(c, j) ==
+  CASE c.form \in CtorForms -> {CombBj(c, j, c.uf)}
+    [] c.form = "ufunc_rlist" -> {CombBj(c, j, c.uf), CombBj(c, j, c.ua), CombAj(c, j)}
+    [] c.form = "ufunc_llist" -> {CombBj(c, j, c.uf), CombAj(c, j), Scale2(CombAj(c, j), UnitExp(c.ua) - UnitExp(c.uf))}
+    [] OTHER -> {CombBj(c, j, c.uf), CombBj(c, j, c.ua), CombAj(c, j)}
+CombExact(c, j) ==
+  CASE c.form \in CtorForms -> CombBj(c, j, c.uf)
+    [] c.form = "ufunc_rlist" -> BinExact(c.op, CombAj(c, j), CombBj(c, j, c.ua))
+    [] c.form = "ufunc_llist" -> BinExact(c.op, CombBj(c, j, c.uf), Scale2(CombAj(c, j), UnitExp(c.ua) - UnitExp(c.uf)))
+    [] c.form = "setitem_q" /\ j = 1 -> CombAj(c, j)
+    [] OTHER -> CombBj(c, j, c.ua)
+CombCmp(c, j) ==
+  CASE c.form = "ufunc_rlist" -> BinCmp(c.op, CombAj(c, j), CombBj(c, j, c.ua))
+    [] c.form = "ufunc_llist" -> BinCmp(c.op, CombBj(c, j, c.uf), Scale2(CombAj(c, j), UnitExp(c.ua) - UnitExp(c.uf)))
+    \* isclose with the default tolerances: on the dyadic grid (steps >= 2^-13) and |b| <= 8 it is equality
+    [] OTHER -> REq(CombAj(c, j)[1], CombBj(c, j, c.ua)[1])
+CombIsBool(c) == c.form \in CloseForms \/ (c.form \in ListOpForms /\ c.op \in CmpOps)
+CombDecidable(c, j, o) ==
+  /\ CombSmall(c) /\ ~o.raise /\ c.form \notin RefusingForms
+  /\ \A x \in CombSteps(c, j) : \A cs \in {Comp(c.d0), Comp(c.d1)} : IsRepR(x[1], cs) /\ IsRepR(x[2], cs)
+  /\ IF CombIsBool(c) THEN (c.form \in CloseForms => RLe(RAbs(CombBj(c, j, c.ua)[1]), R(8)))
+     ELSE IF o.kind \in {"i", "u"} THEN TRUE
+     ELSE Decidable(CombExact(c, j), o, Comp(c.d0), Comp(c.d1))
+CombElemOK(e, c, j, o) ==
+  IF CombDecidable(c, j, o) THEN
+     IF CombIsBool(c) THEN e.b = CombCmp(c, j)
+     ELSE IF o.kind \in {"i", "u"} THEN (e.has /\ e.re = CombExact(c, j)[1] /\ CombExact(c, j)[2] = RZero)
+     ELSE ElemMatches(e, CombExact(c, j), o)
+  ELSE (e.mS \/ e.mP)
+\* allclose answers once for both elements
+CombRec(o, c) ==
+  IF o.raise THEN Raise
+  ELSE Ret(o.kind, o.size, o.py, o.warnR,
+           IF c.form = "allclose" THEN
+              (IF CombDecidable(c, 1, o) /\ CombDecidable(c, 2, o) THEN o.els[1].b = (CombCmp(c, 1) /\ CombCmp(c, 2)) ELSE (o.els[1].mS \/ o.els[1].mP))
+           ELSE \A j \in DOMAIN o.els : CombElemOK(o.els[j], c, IF j > 2 THEN 2 ELSE j, o))
+CombOracleOK(o, c) ==
+  o.raise \/ c.form = "allclose" \/ \A j \in DOMAIN o.els : j <= 2 =>
+     (CombDecidable(c, j, o) => (CombElemOK(o.els[j], c, j, o) <=> o.els[j].mS))
+TComb(m, o, r) == /\ m.raise = o.raise
+                  /\ ~o.raise => (m.kind = o.kind /\ m.size = o.size /\ m.py = o.py /\ m.vok = r.vok)
+ReportComb(n, c, o) ==
+  LET r == CombRec(o, c) IN
+  /\ \A cl \in CombFails(c.form, c.op, c.d0, c.d1, c.uf, c.ua, r) : PFail(n, c, c.form, cl)
+  /\ (~TComb(c.m, o, r) => TFail(n, c.form, c.m, o, r))
+  /\ (~CombOracleOK(o, c) => PrintT(ToJson([tag |-> "ORACLE", i |-> n])))
+
 Next == /\ i <= Len(Obs)
         /\ LET c == Obs[i].c
                o == Obs[i].o IN
-           IF c.fam = "conv" THEN ReportConv(i, c, o) ELSE ReportUfunc(i, c, o)
+           IF c.fam = "conv" THEN ReportConv(i, c, o) ELSE IF c.fam = "comb" THEN ReportComb(i, c, o) ELSE ReportUfunc(i, c, o)
         /\ i' = i + 1
 =============================================================================
